@@ -103,9 +103,11 @@ FINDING_TEXT = {
     "C01-9": "a newtype over a replacement / conversion type `String` declared with FromStr gets `TryFrom<String>` next to `From<String>` (E0119)",
     "C01-10": "`enum: [null, ..]` emits the nullable wrapper and the inner enum under one name (E0428, E0072)",
     "C01-11": "a patch `rename` is used unchecked: a taken name, a module name, a keyword or a non-identifier (E0428 / unparsable / to_stream panic)",
-    "C01-12": "two definitions (or a titled sub-schema, or a re-added document) map to one type name: two items of that name (E0428) [= C08-F2, C16-1/2/3]",
+    "C01-12": "a type name registered by two calls (C16-1), or a titled nested sub-schema named like a definition / the root of its call (C16-3): two items (E0428)",
     "C01-13": "field identifiers that differ as scalar sequences but are NFC-equal (E0124) [= C08-F4]",
     "C01-14": "containment cycle through a native type parameter (x-rust-type Option<Self>) is not cut (E0072) [= C07-2]",
+    "C01-18": "a supported document is rejected (InvalidValue): two oneOf branches define one property with different inline schemas, both named <Def><Prop>; the second silently reuses the first type and its valid default fails validation",
+    "C01-17": "an inline sub-schema under a property named `_` / `` / `-` is named like its parent: two items of that name (E0428)",
 }
 
 
@@ -332,11 +334,46 @@ def uses_float(doc):
     return '"number"' in json.dumps(doc)
 
 
+def variant_prop_alias(doc):
+    """finding C01-18 region: two branches of one oneOf / anyOf define the same property with DIFFERENT schemas that
+    both need a named type; typify names both `<Def><Prop>` and silently reuses the first (lib.rs assign_type by name)"""
+    def scan(s):
+        if isinstance(s, dict):
+            for key in ("oneOf", "anyOf"):
+                subs = s.get(key)
+                if isinstance(subs, list):
+                    seen = {}
+                    for b in subs:
+                        for pn, ps in ((b.get("properties") or {}).items() if isinstance(b, dict) else ()):
+                            if is_inline_named(ps):
+                                if pn in seen and seen[pn] != json.dumps(ps, sort_keys=True):
+                                    return True
+                                seen.setdefault(pn, json.dumps(ps, sort_keys=True))
+            return any(scan(v) for v in s.values())
+        if isinstance(s, list):
+            return any(scan(v) for v in s)
+        return False
+    return scan(doc)
+
+
+SKIPPED_ALIAS = [0]
+
+
+def clean_doc(seed0, **kw):
+    """next grammar document outside the region of finding C01-18 (represented by corpus/C01/w18)"""
+    for t in range(20):
+        g = schemagen.Gen(seed0 + 7919 * 100003 * t, **kw)
+        doc, tg = g.doc()
+        if not variant_prop_alias(doc):
+            return doc, tg
+        SKIPPED_ALIAS[0] += 1
+    return doc, tg
+
+
 def stream_grammar(ctx, n):
     out = []
     for k in range(n):
-        g = schemagen.Gen(ctx.seed * 1000003 + 7000 + k, features=GRAMMAR_FEATURES)
-        doc, tg = g.doc()
+        doc, tg = clean_doc(ctx.seed * 1000003 + 7000 + k, features=GRAMMAR_FEATURES)
         rnd = random.Random(ctx.seed * 7919 + k)
         st, stg = settings_combo(rnd, doc["definitions"])
         if uses_float(doc) or "replace" in st:
@@ -383,8 +420,7 @@ def components(defs):
 def stream_histories(ctx, n):
     out = []
     for k in range(n):
-        g = schemagen.Gen(ctx.seed * 1000003 + 9000 + k, features=GRAMMAR_FEATURES, ndefs=(3, 7))
-        doc, tg = g.doc()
+        doc, tg = clean_doc(ctx.seed * 1000003 + 9000 + k, features=GRAMMAR_FEATURES, ndefs=(3, 7))
         defs = doc["definitions"]
         rnd = random.Random(ctx.seed * 104729 + k)
         comps = components(defs)
@@ -417,8 +453,10 @@ def stream_histories(ctx, n):
 
 
 # --- fixture mutations --------------------------------------------------------
+# "" and "_" are left out: a property name without an alphanumeric character over an inline sub-schema is finding
+# C01-17 (represented by corpus/C01/w17 and the hostile inline-empty-suffix-* cases)
 ODD_PROP_NAMES = ["type", "self", "fn", "match", "async", "r#x", "a b", "1st", "+1", "x'y", "Box", "Some", "kebab-case",
-                  "camelCase", "SHOUT", "$id", "a.b", "", "_"]
+                  "camelCase", "SHOUT", "$id", "a.b"]
 
 
 def objects_in(s, path, acc):
@@ -448,7 +486,7 @@ def simple_default(s):
 def mutate_fixture(rnd, name, doc):
     doc = copy.deepcopy(doc)
     kind = rnd.choice(["prop-odd", "prop-odd", "prop-collide", "default", "default-bad", "nullable-def", "title-fresh",
-                       "def-rename"])
+                       "def-rename", "root-title-collide", "root-title-collide"])
     objs = []
     objects_in(doc, [], objs)
     defs = doc.get("definitions") or doc.get("$defs") or {}
@@ -495,6 +533,22 @@ def mutate_fixture(rnd, name, doc):
             return None
         o["properties"][p] = dict(o["properties"][p], title="FreshTitle%d" % rnd.randrange(100))
         return kind, doc
+    if kind == "root-title-collide" and defs:
+        # the root gets a title that names one of its own definitions: exactly, or up to case / separators.
+        # Fix c22ef06 must reject the document when both map to one type name (decided by the real sanitize).
+        cands = [n for n in sorted(defs) if n not in ("HandGeneratedType", "TypeThatNeedsMoreDerives")]
+        if not cands:
+            return None
+        n = rnd.choice(cands)
+        words = re.findall(r"[A-Z]?[a-z0-9]+|[A-Z]+(?![a-z])", n) or [n]
+        t = rnd.choice([n, n, "-".join(w.lower() for w in words), "_".join(w.lower() for w in words),
+                        " ".join(words), n[:1].lower() + n[1:], n.upper()])
+        doc["title"] = t
+        if "type" not in doc and "$ref" not in doc and rnd.random() < 0.5:
+            doc["type"] = "object"
+            doc["properties"] = {"injected": {"type": "integer"}}
+        pn = pascal_names([t, n])
+        return (kind + (":same" if pn[t] == pn[n] else ":distinct")), doc
     if kind == "def-rename" and defs:
         n = rnd.choice(sorted(defs))
         new = rnd.choice(["type", "self", "fn", "a b", "1st", "kebab-case", "Box", "Some", "x'y"])
@@ -522,8 +576,11 @@ def stream_mutations(ctx, n):
             continue
         kind, d2 = m
         st = fixture_settings(rnd.choice([0, 1]))
-        out.append(mk("mutation:%d:%s:%s" % (len(out), name, kind), "mutation", st, [{"op": "root", "doc": d2}], False,
-                      ["mut:" + kind]))
+        m = mk("mutation:%d:%s:%s" % (len(out), name, kind), "mutation", st, [{"op": "root", "doc": d2}], False,
+               ["mut:" + kind])
+        if kind == "root-title-collide:same":
+            m["expect_fixed"] = {"commit": "c22ef06", "now": "rejected", "was": "titled root and a definition of its own call map to one type name"}
+        out.append(m)
     return out
 
 
@@ -579,12 +636,133 @@ def rendered_vecish(ents, i):
     return None
 
 
+_PASCAL = {}
+
+
+def pascal_names(raws):
+    """typify's sanitize(name, Pascal) for raw definition keys / titles (asked of the real implementation)"""
+    need = [r for r in raws if r not in _PASCAL]
+    if need:
+        out = vlib.run_bin("c01", [{"op": "pascal", "names": need}])[0]["out"]
+        _PASCAL.update(zip(need, out))
+    return {r: _PASCAL[r] for r in raws}
+
+
+def nested_titles(sch, depth, acc, nullenum_keys=None):
+    if isinstance(sch, dict):
+        if depth > 0 and isinstance(sch.get("title"), str):
+            acc.append(sch["title"])
+        for k, v in sch.items():
+            if k in ("definitions", "$defs", "default", "enum", "const", "examples"):
+                continue
+            nested_titles(v, depth + 1, acc)
+    elif isinstance(sch, list):
+        for v in sch:
+            nested_titles(v, depth + 1, acc)
+
+
+def step_names(step):
+    """(top-level raw names registered by this call, titles of nested sub-schemas, definition keys whose schema is
+    an `enum` containing null next to other values)"""
+    tops, nested, nullenum = [], [], []
+    op = step.get("op", "root")
+    if op == "add":
+        sch = step.get("schema")
+        nm = step.get("name") or (sch.get("title") if isinstance(sch, dict) else None)
+        if nm:
+            tops.append(nm)
+        nested_titles(sch, 0, nested)
+        return tops, nested, nullenum
+    if op == "refs":
+        defs = step.get("defs") or {}
+        body = None
+    else:
+        doc = step.get("doc") or {}
+        defs = dict(doc.get("definitions") or {})
+        defs.update(doc.get("$defs") or {})
+        body = doc
+        if isinstance(doc.get("title"), str):
+            tops.append(doc["title"])
+    for k, v in defs.items():
+        tops.append(k)
+        nested_titles(v, 0, nested)
+        if isinstance(v, dict) and isinstance(v.get("enum"), list) and None in v["enum"] and len(v["enum"]) > 1:
+            nullenum.append(k)
+    if body is not None:
+        nested_titles({k: v for k, v in body.items() if k not in ("definitions", "$defs")}, 0, nested)
+    return tops, nested, nullenum
+
+
+def is_inline_named(sch):
+    return isinstance(sch, dict) and "$ref" not in sch and (
+        isinstance(sch.get("properties"), dict) and sch["properties"] or
+        (isinstance(sch.get("enum"), list) and len(sch["enum"]) > 0 and sch.get("type") == "string") or
+        any(k in sch for k in ("oneOf", "anyOf", "allOf", "not")))
+
+
+def empty_suffix_inline(step, top):
+    """the schema registered under the top-level name `top` has a property whose name adds nothing to the derived
+    type name (sanitize(top + ' ' + prop) = sanitize(top)) and whose schema needs a named type of its own"""
+    op = step.get("op", "root")
+    if op == "refs":
+        sch = (step.get("defs") or {}).get(top)
+    elif op == "add":
+        sch = step.get("schema")
+    else:
+        doc = step.get("doc") or {}
+        sch = (doc.get("definitions") or {}).get(top) or (doc.get("$defs") or {}).get(top) or (doc if doc.get("title") == top else None)
+    props = sch.get("properties") if isinstance(sch, dict) else None
+    if not isinstance(props, dict):
+        return False
+    cand = [p for p, v in props.items() if is_inline_named(v)]
+    if not cand:
+        return False
+    pc = pascal_names([top] + [top + " " + p for p in cand])
+    return any(pc[top + " " + p] == pc[top] for p in cand)
+
+
+def native_param_cycle(ents):
+    """a by-value path from a type parameter of a native entry back to an entry that embeds that native"""
+    def kids(e):
+        k = e["kind"]
+        if k == "struct":
+            return [p["type_id"] for p in e["props"]]
+        if k == "newtype":
+            return [e["type_id"]]
+        if k == "option" or k == "array":
+            return [e["id"]]
+        if k == "tuple":
+            return list(e["ids"])
+        if k == "native":
+            return list(e["params"])
+        if k == "enum":
+            out = []
+            for v in e["variants"]:
+                dd = v["details"]
+                out += [dd["id"]] if dd["k"] == "item" else list(dd.get("ids", [])) + [p["type_id"] for p in dd.get("props", [])]
+            return out
+        return []
+    for i, e in ents.items():
+        if e["kind"] == "native" and e["params"]:
+            seen, todo = set(), list(e["params"])
+            while todo:
+                x = todo.pop()
+                if x == i:
+                    return True
+                if x in seen or x not in ents:
+                    continue
+                seen.add(x)
+                todo += kids(ents[x])
+    return False
+
+
 def classify(case, g, kind, codes, msgs):
     """finding id for a failing case, or None.  `kind`: render-panic | unparsable | compile-error"""
     st = case["settings"]
     renames = [p.get("rename") for p in (st.get("patch") or {}).values() if p.get("rename")]
     if kind in ("render-panic", "unparsable"):
-        if any((not is_ident(r)) or r in RUST_KW for r in renames):
+        bad = [r for r in renames if (not is_ident(r)) or r in RUST_KW]
+        if bad and any(r in case.get("_detail", "") for r in bad):
             return "C01-11"
         return None
     codes = set(codes)
@@ -593,18 +771,48 @@ def classify(case, g, kind, codes, msgs):
     names = [it["name"] for it in items]
     d = dups(names)
     msg = " | ".join(msgs)
-    if d or "E0428" in codes and any(it["kind"] == "mod" and it["name"] in [x["name"] for x in items if x["kind"] != "mod"] for it in items):
+    mod_clash = [it["name"] for it in items if it["kind"] == "mod" and it["name"] in [x["name"] for x in items if x["kind"] != "mod"]]
+    if d or mod_clash:
+        # two items of one name: attributed ONLY to the specific constructs below; a duplicate that arises
+        # any other way (e.g. a titled root next to a definition of its own call, two definition keys of one
+        # call: rejected since c22ef06) is an unlisted VIOLATION
         if not codes <= DUP_CASCADE:
             return None
-        if any(r in d or r in ("error", "builder", "defaults") for r in renames):
-            return "C01-11"
-        # the nullable wrapper and its inner enum under one name
-        for i, e in ents.items():
-            if e["kind"] == "newtype" and e["name"] in d:
-                inner = ents.get(e["type_id"], {})
-                if inner.get("kind") == "option" and ents.get(inner["id"], {}).get("name") == e["name"]:
-                    return "C01-10"
-        return "C01-12"
+        if mod_clash:
+            return "C01-11" if all(n in renames and n in ("error", "builder", "defaults") for n in mod_clash) and not \
+                [n for n in d if n not in mod_clash] else None
+        per_step = [step_names(stp) for stp in case["steps"]]
+        flat = sorted({x for tops, nested, _ in per_step for x in tops + nested})
+        pc = pascal_names(flat)
+        ren = {k: v["rename"] for k, v in (st.get("patch") or {}).items() if v.get("rename")}
+        ty = lambda raw: ren.get(pc[raw], pc[raw])
+        verdicts = set()
+        for n in d:
+            tops = [[x for x in t if ty(x) == n] for t, _, _ in per_step]
+            nest = [[x for x in ns if ty(x) == n] for _, ns, _ in per_step]
+            nullenum = any(ty(k) == n for _, _, ne in per_step for k in ne)
+            if max(len(t) for t in tops) > 1:
+                return None                                   # two top-level names of ONE call: c22ef06 must reject it
+            if nullenum and sum(len(t) for t in tops) == 1 and not any(nest):
+                verdicts.add("C01-10")                        # `enum: [null, ..]` definition: wrapper and inner enum
+            elif len([t for t in tops if t]) >= 2:
+                verdicts.add("C01-12")                        # the name registered by two CALLS (C16-1)
+            elif any(t and ns for t, ns in zip(tops, nest)):
+                verdicts.add("C01-12")                        # titled nested sub-schema vs a top-level name of its call (C16-3)
+            elif any(t and empty_suffix_inline(stp, t[0]) for t, stp in zip(tops, case["steps"])):
+                verdicts.add("C01-17")                        # inline type under a property contributing no name suffix
+            else:
+                return None
+        if "C01-10" in verdicts:
+            for i, e in ents.items():
+                if e["kind"] == "newtype" and e["name"] in d:
+                    inner = ents.get(e["type_id"], {})
+                    if inner.get("kind") == "option" and ents.get(inner["id"], {}).get("name") == e["name"]:
+                        return "C01-10" if verdicts == {"C01-10"} else None
+            return None
+        if verdicts == {"C01-17"}:
+            return "C01-17"
+        return "C01-12" if verdicts == {"C01-12"} else None
     fns = [it["name"] for it in g["render"]["scan"]["items"] if it["mod"] == "defaults" and it["kind"] == "fn"]
     if dups(fns) and codes <= {"E0428"}:
         return "C01-4"
@@ -618,7 +826,8 @@ def classify(case, g, kind, codes, msgs):
     if ("Ok" in nts or "Err" in nts) and codes <= {"E0308", "E0277", "E0618", "E0532", "E0023"}:
         return "C01-3"
     big = any((e["kind"] == "array" and e["len"] > 32) or (e["kind"] == "tuple" and len(e["ids"]) > 12) for e in ents.values())
-    if big and codes <= {"E0277", "E0599"}:
+    if big and codes <= {"E0277", "E0599"} and all(any(t in m for t in ("Deserialize", "Serialize", "Debug", "Default"))
+                                                   or "; " in m for m in msgs):
         return "C01-5"
     t1 = any(v["details"]["k"] == "tuple" and len(v["details"]["ids"]) == 1
              for e in ents.values() if e["kind"] == "enum" for v in e["variants"])
@@ -646,9 +855,8 @@ def classify(case, g, kind, codes, msgs):
             nf = [unicodedata.normalize("NFC", p["name"]) for p in props]
             if dups(nf) and not dups([p["name"] for p in props]):
                 return "C01-13"
-    if codes <= {"E0072"}:
-        if any(e["kind"] == "native" and e["params"] for e in ents.values()):
-            return "C01-14"
+    if codes <= {"E0072"} and native_param_cycle(ents):
+        return "C01-14"
     return None
 
 
@@ -781,7 +989,7 @@ def coq_wf(ctx, gens, idx, tag):
 
 # conjunct tag of RustStatic.wf_report -> finding classes it explains
 TAG_FINDINGS = {
-    "items": {"C01-10", "C01-11", "C01-12"},
+    "items": {"C01-10", "C01-11", "C01-12", "C01-17"},
     "modnames": {"C01-11"},
     "defaultfns": {"C01-4"},
     "fields": set(),
@@ -825,7 +1033,7 @@ def run(ctx):
             pool = rnd.sample(pool, 800)
         ss += [(size, t, s) for t, s in pool]
     rand = (stream_grammar(ctx, 45 if quick else 150) + stream_histories(ctx, 25 if quick else 80) +
-            stream_mutations(ctx, 25 if quick else 100))
+            stream_mutations(ctx, 30 if quick else 120))
     if os.path.isdir(CORPUS):
         for f in sorted(glob.glob(os.path.join(CORPUS, "*.json"))):
             if os.path.basename(f) == "hostile_expect.json":
@@ -835,6 +1043,7 @@ def run(ctx):
                    c.get("supported", False), ["corpus"], c.get("note", ""))
             m["expect_finding"] = (c.get("expect") or {}).get("finding")
             m["expect_fixed"] = (c.get("expect") or {}).get("fixed")
+            m["expect_rejected_finding"] = (c.get("expect") or {}).get("rejected_finding")
             fixed.insert(0, m)
 
     # ---------------- small scope: every schema alone through the real converter, then packed for rustc
@@ -917,7 +1126,27 @@ def run(ctx):
     for r in results:
         if r["case"]["stream"] != "hostile" and r["kind"] != "ok":
             ctx.log("non-ok:", r["case"]["id"], r["kind"], r["codes"], r["detail"][:120].replace("\n", " "))
+    if MUTATE == "impl-accepts-titled-root":
+        # emulate the loss of fix c22ef06 for a titled root: the must-reject cases are accepted and the module has two
+        # items of one name (the recorded answer of a real duplicate-item module is substituted)
+        src = [r for r in results if r["case"]["id"] == "hostile:coll-title-def"][0]
+        for r in results:
+            if r["case"]["id"] in ("hostile:root-title-eq-def", "corpus:r01-root-title-equals-definition"):
+                r.update({"g": src["g"], "kind": src["kind"], "codes": src["codes"], "msgs": src["msgs"], "detail": ""})
     # ---------------- verdicts
+    expect = json.load(open(EXPECT)) if os.path.exists(EXPECT) else {}
+    write_expect = bool(os.environ.get("C01_WRITE_EXPECT"))
+
+    def admissible(c, fid):
+        """a failure may be attributed to a listed class only on the curated case recorded for that class: a
+        corpus witness of that finding, or a hostile case whose recorded outcome is that finding.  Everywhere else
+        (random streams, small scope, hostile cases recorded as pass / rejected) a failure is a VIOLATION even if
+        it looks like a listed class."""
+        if c["stream"] == "corpus":
+            return c.get("expect_finding") == fid
+        if c["stream"] == "hostile":
+            return write_expect or expect.get(c["id"][len("hostile:"):]) == "finding:" + fid
+        return False
     viol, found = [], collections.defaultdict(list)
     dist = collections.Counter()
     outcome_by_stream = collections.defaultdict(collections.Counter)
@@ -932,7 +1161,10 @@ def run(ctx):
             ctx.nontrivial.add(c["id"].split(":")[0] + ":" + ",".join(sorted(set(c["tags"])))[:80])
             continue
         if r["kind"] in ("rejected", "settings-rejected", "abort", "empty"):
-            if c["supported"]:
+            if c["supported"] and c.get("expect_rejected_finding") and r["kind"] == "rejected":
+                r["finding"] = c["expect_rejected_finding"]       # curated witness of a listed over-rejection
+                found[r["finding"]].append(c["id"])
+            elif c["supported"]:
                 viol.append({"what": "a schema of the supported fragment is rejected", "id": c["id"], "outcome": r["kind"],
                              "detail": r["detail"], "settings": c["settings"], "steps": c["steps"]})
             continue
@@ -941,6 +1173,9 @@ def run(ctx):
             r["kind"] = "caller-promise-broken"
             continue
         fid = classify(c, r["g"], r["kind"], r["codes"], r["msgs"])
+        looks_like = None
+        if fid and not admissible(c, fid):
+            looks_like, fid = fid, None
         r["finding"] = fid
         if fid:
             found[fid].append(c["id"])
@@ -949,6 +1184,7 @@ def run(ctx):
                                   "unparsable": "the emitted tokens do not parse as a file",
                                   "compile-error": "rustc rejects the generated module"}[r["kind"]],
                          "id": c["id"], "codes": r["codes"], "messages": r["msgs"][:4], "detail": r["detail"],
+                         "resembles_listed_class_but_not_its_recorded_case": looks_like,
                          "settings": c["settings"], "steps": c["steps"]})
 
     # witnesses of FIXED findings are regression cases: they must be accepted and compile (or be rejected at add
@@ -967,7 +1203,6 @@ def run(ctx):
     ctx.coverage["witnesses_not_reproduced"] = [r["case"]["id"] for r in results if r["case"]["stream"] == "corpus"
                                                 and r["case"].get("expect_finding") and r["kind"] in ("ok", "rejected")]
     # hostile expectations (classification recorded in the build phase)
-    expect = json.load(open(EXPECT)) if os.path.exists(EXPECT) else {}
     drift, misattributed = [], []
     new_expect = {}
     for r in results:
@@ -985,7 +1220,7 @@ def run(ctx):
             drift.append((hid, e, cls))
             if e.startswith("finding:") and cls.startswith("finding:"):
                 misattributed.append((hid, e, cls))
-    if os.environ.get("C01_WRITE_EXPECT"):
+    if write_expect:
         os.makedirs(CORPUS, exist_ok=True)
         json.dump(new_expect, open(EXPECT, "w"), indent=1, sort_keys=True)
         ctx.log("wrote", EXPECT)
@@ -1059,9 +1294,10 @@ def run(ctx):
             want = v.get("codes")
 
             def still(c, v=v, want=want):
-                k, st, cd = compile_single(ctx, c, "x")
                 if "supported" in v["what"]:
-                    return k in ("rejected", "abort")
+                    k, dt = ingest_outcome(gen_one(c))
+                    return k in ("rejected", "abort") and dt[:40] == v.get("detail", "")[:40]
+                k, st, cd = compile_single(ctx, c, "x")
                 if "rustc" in v["what"]:
                     return st == "compile-error" and set(cd) & set(want or cd)
                 return k in ("render-panic", "unparsable")
@@ -1080,6 +1316,7 @@ def run(ctx):
     ctx.coverage["distribution"] = dict(sorted(dist.items()))
     ctx.coverage["outcomes_by_stream"] = {k: dict(v) for k, v in outcome_by_stream.items()}
     ctx.coverage["findings_attributed"] = {k: len(v) for k, v in found.items()}
+    ctx.coverage["random_documents_redrawn_outside_C01-18_region"] = SKIPPED_ALIAS[0]
     ctx.samples = [{"id": r["case"]["id"], "outcome": r["kind"], "codes": r["codes"], "finding": r.get("finding"),
                     "wf": r.get("wf_tags")} for r in results[::max(1, len(results) // 12)]]
     ctx.trusted = ["Coq 8.16.1 kernel + vm_compute", "rustc 1.80.1 + serde_derive 1.0.219 as the oracle of compilability",
